@@ -276,3 +276,14 @@ def smoothing_margin(case, nfft):
 def case_public(case):
     """json-able copy"""
     return {k: v for k, v in case.items()}
+
+
+def impl_result_only(case):
+    """(result, FFT length written back) of one processing case; JSON-able after common.canon_result"""
+    r = run_impl(case)
+    res = r["result"]
+    if isinstance(res, list):
+        res = [np.asarray(x).tolist() for x in res]
+    elif not isinstance(res, str):
+        res = np.asarray(res).tolist()
+    return dict(result=res, fft_after=r["fft_after"])
